@@ -1224,7 +1224,9 @@ func (c *Canonicalizer) NormalizeOperand(v ssa.Value, context ssa.Instruction) s
 		if name, exists := c.registerMap[v]; exists {
 			return name
 		}
-		return fmt.Sprintf("<func_ref:%s:%s>", operand.Name(), sanitizeType(operand.Signature))
+		// fn.String() identifies a function by package path, receiver and name; the bare name
+		// would make crypto/rand.Read and math/rand.Read indistinguishable.
+		return fmt.Sprintf("<func_ref:%s:%s>", operand.String(), sanitizeType(operand.Signature))
 	default:
 		return c.normalizeValue(v)
 	}
